@@ -630,14 +630,19 @@ def dd_chunks(n):
 def shrink_case(mod, binpath, case, still_bad, max_rounds=60, budget_s=45.0):
     """greedy shrinking using the property module's `shrink(case)` candidates (ordered from the most
     aggressive to the least); bounded by a wall-clock budget"""
-    if not hasattr(mod, "shrink"):
+    if case.op == "detmulti":
+        from driver import multigen
+        shrinker = multigen.shrink
+    elif hasattr(mod, "shrink"):
+        shrinker = mod.shrink
+    else:
         return case
     cur = case
     t0 = time.time()
     for _ in range(max_rounds):
         if time.time() - t0 > budget_s:
             break
-        cands = list(mod.shrink(cur))[:300]
+        cands = list(shrinker(cur))[:300]
         if not cands:
             break
         nxt = None
